@@ -19,6 +19,7 @@ func main() {
 	seed := flag.Uint64("seed", 1, "PRNG seed (VERIF_SEED)")
 	replay := flag.String("replay", "", "file with case lines to re-run instead of generating")
 	list := flag.Bool("list", false, "list registered properties")
+	one := flag.String("one", "", "execute this single case text and print only its observation (child-process mode)")
 	flag.Parse()
 	// the library logs every recovered panic with a stack trace: not part of any observation
 	slog.SetDefault(slog.New(slog.NewTextHandler(io.Discard, nil)))
@@ -30,6 +31,10 @@ func main() {
 	if !ok {
 		fmt.Fprintf(os.Stderr, "no runner for %q\n", *prop)
 		os.Exit(2)
+	}
+	if *one != "" {
+		fmt.Println(fam.Exec(*one))
+		return
 	}
 	c := run.NewCtx(*prop, *tier == "thorough", *seed, fam)
 	defer c.Flush()
